@@ -39,11 +39,14 @@ PROPS = {
     },
     "C11": {
         "props_file": "Props/C11.v",
-        "run_files": ["Run/CaseC11.v", "Run/CaseC12.v", "Run/CaseConn.v"],
+        "run_files": ["Run/CaseC11.v", "Run/CaseC12.v", "Run/CaseConn.v", "Run/CaseLst.v"],
         "imports": ["Lib.Bytes", "Run.CaseC11"],
         "case_type": "c11case",
         "checkers": {"H": "check_c11", "D": "check_c11"},
+        "family_types": {"ENV": ENV_FT},
         "harness": [{"bin": "hash"},
+                    # the server id as the application reads it from the environment (Config::read)
+                    {"bin": "listener", "crate": "harness-app", "families": ["ENV"], "env": {"VERIF_FAMILY": "ENV"}, "case_type": "envcase", "imports": ["Lib.Bytes", "Limiter.Limiter", "Listener.Machine", "Listener.Wire", "Run.CaseLst"], "checkers": {"ENV": "check_env"}, "shard": 50},
                     # the hash as it is USED towards the session service: the real MojangAdapter's request
                     {"bin": "mojang", "crate": "harness-net", "case_type": "c12case", "imports": ["Lib.Bytes", "Run.CaseC12"],
                      "checkers": {"REQ": "check_c12"}, "shard": 50},
